@@ -7,6 +7,9 @@ class take:
     def init(s):
         s.n = 0
 
+    def valid(s):
+        return s.n >= 0
+
     def done(s):
         return s.n >= s.count
 
